@@ -116,8 +116,14 @@ func verifCallOp(d *DB, op int, caller Caller, name string, ver api.SecretVersio
 		res.required = acl.ActionDelete
 		res.err = d.Delete(caller, name)
 	}
+	if verifIllFormedName {
+		res.wellForm = false // a name that is not valid UTF-8 is no well-formed request: refused, nothing to record
+	}
 	return res
 }
+
+// set by harnesses that let the name of the call be a Go string that is not valid UTF-8 (see illFormedIf)
+var verifIllFormedName bool
 
 // verifC01Run: no effect and no disclosure without ALLOW(required action, name).
 func verifC01Run(op int) {
